@@ -30,6 +30,12 @@ class ConstraintDistScopeModel(ConstraintInlineScopeModel):
     def next_target_range(self, randstate : RandState) -> int:
         """Select the next target range from the weight list"""
 
+        if len(self.weight_list) == 0:
+            # Every weight is zero: no entry can be selected. The exclusion
+            # constraints of the entries make the system unsatisfiable
+            self.target_range = 0
+            return self.target_range
+
         seed_v = randstate.rng.randint(1, self.total_weight)
 
         # Find the first range
